@@ -283,6 +283,7 @@ def decide(pid, tier, seed):
             samples=samples,
             explanation=conf.get('explanation', '') or ('%d obligations (functions of /repo under contract + lemmas), each discharged for all inputs by the named back end' % n_ob),
             functions_under_contract=sorted(set(functions_under_contract)),
+            obligation_names=[o['name'] for o in obligations],
             backends=sorted(set(o['backend'] for o in obligations)),
             solver_s=round(solver_ms / 1000.0, 3),
             bounded_checks=bounded,
@@ -293,11 +294,15 @@ def decide(pid, tier, seed):
             assumption_scan=assumption_scan,
             undecided=undecided,
             exhaustive=False,
+            evaluations=sum((w.get('cases') or 0) for w in wit) or None,
+            distinct_nontrivial=sum((w.get('nontrivial') or 0) for w in wit) or None,
+            rule='native bounded leg: cases = inputs / histories enumerated exhaustively within the stated scope; nontrivial = those exercising the interesting side of the property (duplicates, partial filters, invalid segments, aliases ...) as counted by the enumerator',
         ),
         assumptions=[P.STD_ASSUMPTIONS[a] for a in conf.get('assumptions', [])] + conf.get('extra_assumptions', []) + externals,
         wall_s=round(time.time() - t0, 2),
         violations=len(lines),
     )
+    ev['coverage'] = {k: v for k, v in ev['coverage'].items() if v is not None}
     tmp = os.path.join(EVID, pid + '.json.tmp')
     with open(tmp, 'w') as f:
         json.dump(ev, f, indent=1)
